@@ -132,6 +132,7 @@ instance : DecidablePred good := fun op => by
   incr := fun c es => ∃ p : List (Nat × Nat), p.Perm c ∧ es = p.map (fun kv => Ev.set kv.1 kv.2)
   inheritDone := true
   good := good
+  idle := fun | .extend [] => true | _ => false
 
 /-! ### representation invariant -/
 
